@@ -227,7 +227,10 @@ def describe(seed, k, tier):
         nstage = int(rng.integers(1, 6))
         nsets = int(rng.integers(1, 4))
         narr = int(rng.integers(1, 4))
-        periodic = bool(rng.random() < 0.7)
+        r_dom = rng.random()
+        domain = 'periodic' if r_dom < 0.5 else (
+            'mirror' if r_dom < 0.8 else 'none')
+        periodic = domain != 'none'     # ghosts are re-created by the domain
         iname, isrc = gen_integrator_source(rng, 'k%d' % k, nstage, nsets,
                                             periodic)
         stp = []
@@ -243,7 +246,8 @@ def describe(seed, k, tier):
                             fa=float(rng.uniform(0.5, 2)),
                             fb=float(rng.uniform(0.5, 2))))
         d.update(kind='generated', integrator=dict(name=iname, src=isrc),
-                 steppers=stp, nsets=nsets, periodic=periodic, exact=True)
+                 steppers=stp, nsets=nsets, periodic=periodic, exact=True,
+                 domain=domain, fixed_h=bool(rng.random() < 0.5))
     else:
         # shipped integrator x shipped steppers (different one per array)
         j = (k // 2)
@@ -287,7 +291,8 @@ def describe(seed, k, tier):
                         rng.random() < 0.7)
         d.update(kind='shipped', integrator=dict(cls=icls),
                  steppers=[dict(cls=c_) for c_ in chosen],
-                 nsets=info['nsets'], periodic=periodic, exact=False)
+                 nsets=info['nsets'], periodic=periodic, exact=False,
+                 domain='periodic' if periodic else 'none', fixed_h=False)
     return d
 
 
@@ -369,11 +374,17 @@ def make_world(desc, wid):
         pa.align_particles()
         pas.append(pa)
     domain = None
-    if desc['periodic']:
+    if desc['domain'] == 'periodic':
         domain = DomainManager(xmin=0.0, xmax=1.0, ymin=0.0, ymax=1.0,
                                periodic_in_x=True,
                                periodic_in_y=True, zmin=0.0, zmax=1.0,
                                periodic_in_z=(dim == 3), n_layers=1.0)
+    elif desc['domain'] == 'mirror':
+        # mirror walls only (no periodic axis)
+        domain = DomainManager(xmin=0.0, xmax=1.0, ymin=0.0, ymax=1.0,
+                               mirror_in_x=True,
+                               mirror_in_y=bool(desc['data_seed'] % 2),
+                               n_layers=1.0)
     eqsets = []
     crng = np.random.default_rng(desc['data_seed'] + 1)
     for i in range(desc['nsets']):
@@ -555,6 +566,15 @@ def run_program(desc, mon):
     for ae in aes:
         ae.set_nnps(nn)
     integ.set_nnps(nn)
+    if desc.get('fixed_h'):
+        # (smoothing lengths are constant in generated programs)
+        integ.set_fixed_h(True)
+        mon['fixed_h_programs'] = mon.get('fixed_h_programs', 0) + 1
+        if desc['domain'] == 'mirror':
+            mon['mirror_fixed_h_programs'] = mon.get(
+                'mirror_fixed_h_programs', 0) + 1
+    mon['domain_' + desc['domain']] = mon.get('domain_' + desc['domain'],
+                                              0) + 1
 
     def cb_for(w):
         def cb(t, dt, stage):
@@ -693,7 +713,9 @@ def run(tier):
                         ('computes', 30), ('post_stage', 50),
                         ('domain_updates', 20), ('ghost_rows', 10),
                         ('remote_rows', 10), ('py_stage_events', 1),
-                        ('stale_computes', 1)):
+                        ('stale_computes', 1), ('domain_mirror', 2),
+                        ('domain_periodic', 2), ('fixed_h_programs', 2),
+                        ('mirror_fixed_h_programs', 1)):
         if c.get(need, 0) < least:
             v.inconclusive_because('%s = %d (< %d)' % (need, c.get(need, 0),
                                                        least))
@@ -705,7 +727,8 @@ def run(tier):
              'random arrangement over 1-3 equation sets) x 1-3 arrays each '
              'with its own stepper (every shipped one in turn, or generated '
              'with py_stage hooks, attributes, strided and int properties) '
-             'x random particle states with Remote rows and periodic ghosts '
+             'x random particle states with Remote rows and periodic or mirror '
+             'ghosts (fixed_h on or off) '
              'x 3 consecutive steps; compiled step() vs literal Python '
              'execution of one_timestep on a reference object; all '
              'properties and constants of all arrays, post-stage callback '
